@@ -22,6 +22,23 @@ structure Genesis where
   messengers : List (Nat × Bytes)
   deriving Repr, DecidableEq, Inhabited
 
+/-- `types.DefaultGenesis()`: no roles, empty registries, both flags present and false, the three optional scalars absent. -/
+def Genesis.default : Genesis where
+  owner := []
+  attesterManager := []
+  pauser := []
+  tokenController := []
+  attesters := []
+  limits := []
+  burnPaused := some false
+  sendPaused := some false
+  maxBody := none
+  nextNonce := none
+  threshold := none
+  pairs := []
+  used := []
+  messengers := []
+
 /-- the map-based duplicate check: no key occurs twice. -/
 def noDup (ks : List Bytes) : Bool :=
   match ks with
